@@ -23,9 +23,13 @@ CONSTANTS Pats,        \* pattern texts (strings)
           MaxRoutes,
           RwTargets, OvTargets,    \* rewrite / override targets used by middleware behaviours
           EpBehs, UseBehs,
-          MultiKinds               \* registrations made for several methods at once, e.g. {"GET+POST"} (app.Add([GET, POST], ...))
+          MultiKinds,              \* registrations made for several methods at once, e.g. {"GET+POST"} (app.Add([GET, POST], ...))
+          CfgFlags,                \* what the application's configuration folds together: subset of {"nocase", "unesc", "nonstrict"}
+          Vias                     \* how a registration is written: "app" (directly), "group" (through a Group whose prefix is the head
+                                   \* of the pattern), "list" / "grouplist" (middleware only: the prefix given in a list).  The way it is
+                                   \* written does NOT enter the dispatch below -- the table is what counts; the replay writes it that way
 
-VARIABLES table,      \* sequence of registrations [kind, pat, beh]
+VARIABLES table,      \* sequence of registrations [kind, pat, beh, via]
           req,        \* <<method, path>> as sent
           phase,      \* "build" | "run" | "done"
           curM, curP, \* method / path as the chain currently sees them
@@ -37,7 +41,8 @@ vars == <<table, req, phase, curM, curP, gpos, rest, matchedEP, ran, status, all
 Kinds == {"use"} \cup RouteMethods \cup MultiKinds
 MethodsOf(k) == IF k = "GET+POST" THEN {"GET", "POST"} ELSE {k}
 Beh(k) == IF k = "use" THEN UseBehs ELSE EpBehs
-RouteRec == UNION { [kind : {k}, pat : Pats, beh : Beh(k)] : k \in Kinds }
+ViasOf(k) == IF k = "use" THEN Vias ELSE Vias \ {"list", "grouplist"}
+RouteRec == UNION { [kind : {k}, pat : Pats, beh : Beh(k), via : ViasOf(k)] : k \in Kinds }
 
 K(r) == IF r.kind = "use" THEN "use" ELSE "ep"
 InStack(r, m) == r.kind = "use" \/ m \in MethodsOf(r.kind)
@@ -113,6 +118,20 @@ Next == Register \/ Request \/ Inner \/ Dispatch \/ Exhausted
 Spec == Init /\ [][Next]_vars
 
 ---------------------------------------------------------------------------
+\* What the measured match relation must respect: spellings of a path that the configuration declares equal are handled by
+\* the same routes ("whether a route handles a path" is a question about the path, not about its spelling).  a and b are equal
+\* when every flag in `needs` is on: "nocase" = CaseSensitive off, "unesc" = UnescapePath on, "nonstrict" = StrictRouting off.
+EquivTable == { [a |-> "/abc",   b |-> "/ABC",     needs |-> {"nocase"}],
+                [a |-> "/abc",   b |-> "/%61bc",   needs |-> {"unesc"}],
+                [a |-> "/abc",   b |-> "/%41bc",   needs |-> {"unesc", "nocase"}],
+                [a |-> "/abc",   b |-> "/%41%42C", needs |-> {"unesc", "nocase"}],
+                [a |-> "/abc/d", b |-> "/abc/%44", needs |-> {"unesc", "nocase"}],
+                [a |-> "/abc/d", b |-> "/abc/%64", needs |-> {"unesc"}],
+                [a |-> "/abc/d", b |-> "/ABC/D",   needs |-> {"nocase"}],
+                [a |-> "/abc",   b |-> "/abc/",    needs |-> {"nonstrict"}] }
+SameRoutes(a, b) == \A pat \in Pats, k \in {"use", "ep"} : (<<pat, k, a>> \in MatchSet) <=> (<<pat, k, b>> \in MatchSet)
+NormRespected == \A e \in EquivTable : (e.needs \subseteq CfgFlags /\ e.a \in Paths /\ e.b \in Paths) => SameRoutes(e.a, e.b)
+
 \* Design-level properties of the abstract dispatch (checked on every generated state)
 RanInRegistrationOrder == \A i \in 1..(Len(ran) - 1) : ran[i] < ran[i + 1]
 RanOnlyApplicable == \A i \in 1..Len(ran) : table[ran[i]].kind = "use" \/ MethodsOf(table[ran[i]].kind) \subseteq RouteMethods
